@@ -431,6 +431,25 @@ fn apply_casts(
         .collect::<Vec<_>>()
 }
 
+/// Ensure the arguments given for out and inout parameters name mutable objects
+fn check_output_arguments(
+    id: ir::FunctionId,
+    param_values: &[ir::Expression],
+    call_location: SourceLocation,
+    context: &Context,
+) -> TyperResult<()> {
+    let signature = context.module.function_registry.get_function_signature(id);
+    for (param_type, param_value) in signature.param_types.iter().zip(param_values) {
+        if matches!(
+            param_type.input_modifier,
+            ir::InputModifier::Out | ir::InputModifier::InOut
+        ) {
+            check_mutable_place(param_value, call_location, context)?;
+        }
+    }
+    Ok(())
+}
+
 fn write_function(
     unresolved: UnresolvedFunction,
     template_args: &[Located<ir::TypeOrConstant>],
@@ -448,6 +467,7 @@ fn write_function(
         call_location,
         context,
     )?;
+    check_output_arguments(id, &param_values, call_location, context)?;
     // Apply implicit casts
     let param_values = apply_casts(casts, param_values, context);
 
@@ -503,6 +523,7 @@ fn write_method(
         call_location,
         context,
     )?;
+    check_output_arguments(id, &param_values, call_location, context)?;
     // Apply implicit casts
     let mut param_values = apply_casts(casts, param_values, context);
     // Add struct as implied first argument
